@@ -5,6 +5,7 @@ import Proofs.Lemmas.C02Phase0
 import Proofs.Lemmas.C02WF
 import Zrnt.Beacon.Impl.Pipeline
 import Proofs.Lemmas.C02Slots
+import Proofs.Lemmas.C02Inv
 import Zrnt.Beacon.Impl.Final
 /-!
 # C02 — slot, epoch and fork-upgrade processing equals the consensus spec
@@ -941,5 +942,151 @@ theorem processSlotsStep_eq (cfg : Config) (inp : SlotInputs) (s : State) (hspe 
   split
   · rw [Lemmas.processEpochPure_slot, hslot]
   · rw [hslot]
+
+/-! ## `process_slots`, in full -/
+
+/-- the slot-loop invariant gives what `processEpoch_eq` asks of a state -/
+theorem EpochWF_of_Q (cfg : Config) (C N : Nat) (s : State) (h : Lemmas.Q cfg C N (get_current_epoch cfg s) s)
+    (hC : C + N + 1 < FAR_FUTURE_EPOCH) : EpochWF cfg s := by
+  have hq := Lemmas.cae_le_qmax cfg (get_current_epoch cfg s) s.validators
+  have hb := h.budget
+  refine { wf := h.wf, small := ⟨?_, ?_⟩, bal_len := by rw [h.blen, h.vlen], bits := h.bits, pj := h.pj, cj := h.cj,
+           fin := h.fin, part_len := fun hf => by rw [h.plen hf, h.vlen] }
+  · rw [h.vlen]; omega
+  · intro v hv hne
+    have := Lemmas.le_qmax cfg (get_current_epoch cfg s) s.validators v hv hne
+    rw [h.vlen]; omega
+
+/-- `Q_genesis_like`: a state shaped like a genesis state satisfies the slot-loop invariant, with budget
+`compute_activation_exit_epoch(epoch) + N`. The hypotheses on the registry are exactly what C13's `genesis_activation`
+and `genesis_effective_balance` (Proofs/Properties/C13.lean) prove of `initialize_beacon_state_from_eth1`'s output:
+nobody exiting, withdrawable or slashed, activation epoch `GENESIS_EPOCH` or `FAR_FUTURE_EPOCH`, one balance per
+validator; the rest (4 justification bits, checkpoint epochs 0, phase0, batch vectors of the configured length) is
+how that function fills the remaining fields. -/
+theorem Q_genesis_like (cfg : Config) (s : State)
+    (hreg : ∀ v ∈ s.validators, v.exit_epoch = FAR_FUTURE_EPOCH ∧ v.withdrawable_epoch = FAR_FUTURE_EPOCH ∧
+      v.slashed = false ∧ (v.activation_epoch = GENESIS_EPOCH ∨ v.activation_epoch = FAR_FUTURE_EPOCH))
+    (hbal : s.validators.length = s.balances.length) (hbits : s.justification_bits.length = 4)
+    (hpj : s.previous_justified_checkpoint.epoch = 0) (hcj : s.current_justified_checkpoint.epoch = 0)
+    (hfin : s.finalized_checkpoint.epoch = 0) (hfork : s.fork = .phase0)
+    (hsr : s.state_roots.length = cfg.SLOTS_PER_HISTORICAL_ROOT) (hbr : s.block_roots.length = cfg.SLOTS_PER_HISTORICAL_ROOT) :
+    Lemmas.Q cfg (compute_activation_exit_epoch cfg (get_current_epoch cfg s) + s.validators.length) s.validators.length
+      (get_current_epoch cfg s) s := by
+  have hex : Lemmas.exits s.validators = [] := by
+    unfold Lemmas.exits
+    rw [List.map_eq_nil_iff, List.filter_eq_nil_iff]
+    intro v hv; simp [(hreg v hv).1]
+  refine { wf := ?_, budget := ?_, vlen := rfl, blen := hbal.symm, bits := hbits, pj := by omega, cj := by omega,
+           fin := by omega, plen := fun h => absurd hfork h, srlen := hsr, brlen := hbr }
+  · intro v hv
+    obtain ⟨h1, h2, h3, h4⟩ := hreg v hv
+    refine ⟨fun hs => ?_, ?_, ?_⟩
+    · rw [h3] at hs; exact absurd hs (by decide)
+    · rw [h1, h2]; exact Nat.le_refl _
+    · rw [h1]; rcases h4 with h | h <;> rw [h] <;> simp [GENESIS_EPOCH, FAR_FUTURE_EPOCH]
+  · rw [Lemmas.qmax_eq, hex]
+    have : Lemmas.farCount s.validators ≤ s.validators.length := by
+      unfold Lemmas.farCount Lemmas.qcount; exact List.length_filter_le _ _
+    simp only [List.foldl_nil]; omega
+
+/-- `processSlots_eq`: `common.ProcessSlots` — per slot `ProcessSlot`, zrnt's `ProcessEpoch` when the next slot starts a
+new epoch, the slot increment and `UpgradeMaybe` — equals the spec's `process_slots` with the fork upgrades, over ANY
+number of slots (one `SlotInputs` each: the state root, the epoch oracle inputs, the upgrade oracle inputs), for
+every start state satisfying the invariant `Q` (registry `WF`, exit-queue budget `C`, list lengths, checkpoint epochs
+not in the future — see `Q_genesis_like` for genesis-shaped states), every configuration with `SLOTS_PER_EPOCH > 0`
+and every fork schedule. The invariant is re-established by `process_slot`, by the whole `process_epoch`, by the slot
+increment (one unit of budget per epoch) and by every upgrade, so nothing is assumed about intermediate states. -/
+theorem processSlots_eq (cfg : Config) (inps : List SlotInputs) (s : State) (C N : Nat)
+    (hspe : 0 < cfg.SLOTS_PER_EPOCH) (hQ : Lemmas.Q cfg C N (get_current_epoch cfg s) s)
+    (hbound : C + inps.length + N + 1 < FAR_FUTURE_EPOCH) :
+    Impl.processSlots cfg inps s = process_slots_pure cfg inps s := by
+  unfold Impl.processSlots process_slots_pure
+  induction inps generalizing s C with
+  | nil => rfl
+  | cons inp rest ih =>
+    simp only [List.foldl_cons, List.length_cons] at hbound ⊢
+    -- one step: code = spec
+    have hstep : Impl.processSlotsStep cfg inp s = process_slot_step_pure process_epoch_pure cfg inp s := by
+      rw [processSlotsStep_eq cfg inp s hspe hQ.srlen hQ.brlen]
+      unfold process_slot_step_pure
+      simp only []
+      have hslot : (process_slot_pure cfg inp.stateRoot s).slot = s.slot := by
+        unfold process_slot_pure; simp only []; split <;> rfl
+      have hcur : get_current_epoch cfg (process_slot_pure cfg inp.stateRoot s) = get_current_epoch cfg s := by
+        unfold get_current_epoch; rw [hslot]
+      have hQ1 := Lemmas.Q_process_slot cfg inp.stateRoot C N _ s hQ
+      rw [← hcur] at hQ1
+      rw [processEpoch_eq cfg inp.epoch _ (EpochWF_of_Q cfg C N _ hQ1 (by omega))]
+    rw [hstep]
+    -- the invariant after the step, one unit of budget later at most
+    have hslot : (process_slot_pure cfg inp.stateRoot s).slot = s.slot := by
+      unfold process_slot_pure; simp only []; split <;> rfl
+    have hQ1 := Lemmas.Q_process_slot cfg inp.stateRoot C N _ s hQ
+    have hcae : compute_activation_exit_epoch cfg (get_current_epoch cfg s) ≤ FAR_FUTURE_EPOCH := by
+      have := Lemmas.cae_le_qmax cfg (get_current_epoch cfg s) s.validators
+      have := hQ.budget; omega
+    have hQ2 : Lemmas.Q cfg C N (get_current_epoch cfg s)
+        (if (s.slot + 1) % cfg.SLOTS_PER_EPOCH = 0 then process_epoch_pure cfg inp.epoch (process_slot_pure cfg inp.stateRoot s)
+         else process_slot_pure cfg inp.stateRoot s) := by
+      split
+      · have hcur : get_current_epoch cfg (process_slot_pure cfg inp.stateRoot s) = get_current_epoch cfg s := by
+          unfold get_current_epoch; rw [hslot]
+        have := Lemmas.Q_process_epoch cfg inp.epoch C N (process_slot_pure cfg inp.stateRoot s) (by rw [hcur]; exact hQ1)
+          (by omega) (by rw [hcur]; exact hcae)
+        rw [hcur] at this; exact this
+      · exact hQ1
+    have hnext : process_slot_step_pure process_epoch_pure cfg inp s =
+        upgrade_maybe_pure cfg inp.upgrade
+          { (if (s.slot + 1) % cfg.SLOTS_PER_EPOCH = 0 then process_epoch_pure cfg inp.epoch (process_slot_pure cfg inp.stateRoot s)
+             else process_slot_pure cfg inp.stateRoot s) with slot := s.slot + 1 } := by
+      unfold process_slot_step_pure
+      simp only [hslot]
+      congr 2
+      split
+      · rw [Lemmas.process_epoch_pure_slot, hslot]
+      · rw [hslot]
+    rw [hnext]
+    have hle : get_current_epoch cfg s ≤ (s.slot + 1) / cfg.SLOTS_PER_EPOCH := by
+      unfold get_current_epoch compute_epoch_at_slot
+      exact Nat.div_le_div_right (Nat.le_succ _)
+    have hdiff : (s.slot + 1) / cfg.SLOTS_PER_EPOCH - get_current_epoch cfg s ≤ 1 := by
+      unfold get_current_epoch compute_epoch_at_slot
+      rw [Nat.succ_div]; split <;> omega
+    have hQ3 := Lemmas.Q_upgrade cfg inp.upgrade _ N _ _
+      (Lemmas.Q_advance cfg C N (get_current_epoch cfg s) ((s.slot + 1) / cfg.SLOTS_PER_EPOCH) _ hQ2 hle (s.slot + 1))
+    apply ih _ (C + ((s.slot + 1) / cfg.SLOTS_PER_EPOCH - get_current_epoch cfg s))
+    · -- the epoch of the new state is the epoch of its slot; upgrades do not move the slot
+      have hus : ∀ x : State, (upgrade_maybe_pure cfg inp.upgrade x).slot = x.slot := by
+        intro x
+        unfold upgrade_maybe_pure
+        simp only []
+        repeat' split
+        all_goals rfl
+      have : get_current_epoch cfg (upgrade_maybe_pure cfg inp.upgrade
+          { (if (s.slot + 1) % cfg.SLOTS_PER_EPOCH = 0 then process_epoch_pure cfg inp.epoch (process_slot_pure cfg inp.stateRoot s)
+             else process_slot_pure cfg inp.stateRoot s) with slot := s.slot + 1 }) = (s.slot + 1) / cfg.SLOTS_PER_EPOCH := by
+        unfold get_current_epoch compute_epoch_at_slot
+        rw [hus]
+      rw [this]; exact hQ3
+    · omega
+
+/-- non-vacuity of `processSlots_eq`: a genesis-shaped one-validator state, two slots, `SLOTS_PER_EPOCH = 1`
+(so both slots end an epoch) -/
+def exampleCfg : Config := let d : Config := default; { d with SLOTS_PER_EPOCH := 1 }
+
+def exampleGenesis : State :=
+  let d : State := default
+  { d with validators := [⟨default, default, 32, false, 0, 0, FAR_FUTURE_EPOCH, FAR_FUTURE_EPOCH⟩], balances := [32],
+           justification_bits := [false, false, false, false] }
+
+example : ∃ (C N : Nat), Lemmas.Q exampleCfg C N (get_current_epoch exampleCfg exampleGenesis) exampleGenesis ∧
+    C + 2 + N + 1 < FAR_FUTURE_EPOCH ∧ 0 < exampleCfg.SLOTS_PER_EPOCH := by
+  refine ⟨_, _, Q_genesis_like exampleCfg exampleGenesis ?_ rfl rfl rfl rfl rfl rfl rfl rfl, by decide, by decide⟩
+  intro v hv
+  have : exampleGenesis.validators = [⟨default, default, 32, false, 0, 0, FAR_FUTURE_EPOCH, FAR_FUTURE_EPOCH⟩] := rfl
+  rw [this] at hv
+  simp only [List.mem_cons, List.not_mem_nil, or_false] at hv
+  subst hv
+  exact ⟨rfl, rfl, rfl, Or.inl rfl⟩
 
 end Zrnt.Proofs.C02
